@@ -1,4 +1,5 @@
 import NunavutVerif.Model.LineBuffer
+import NunavutVerif.Model.PostProc
 import NunavutVerif.Proto
 /-!
 Driver for the C15 correspondence.  One request per line:
@@ -10,6 +11,14 @@ Driver for the C15 correspondence.  One request per line:
                          (start state deliberately non-zero) → `/`-separated encoded file texts
   `assemble <given> <limit> <trim>`  the processor list `_handle_post_processors` builds (see Model)
   `isws <codepoint>`     → `1` / `0`
+  round 2:
+  `flines <text>`        the lines a file opened with newline="" yields → `|`-separated (`!` = none)
+  `copyh <resource> <dst0|N> <runs>`  runs: `/`-separated `<pps>;<start>;<dry>;<allow>` → per-run result (`E` PermissionError,
+                         `N` no file, else text) `/`-separated, then `=` and the destination at the end
+  `call <proc> <state> <content> <term>`  one `__call__` → `N <state'>` | `<content'> <term'> <state'>`; `reset <proc> <state>`
+  `pfiles <procs> <start> <files>`  processor objects `T` / `L<int>` / `C<k>`, every state = start → `/`-separated `<text>:<raised>`
+  `cliz <tr> <mx|N> <nargs|N> <mode> <lim|N> <ctr>`  → `<list>;<line processors in order>`
+  `asmz <given> <lim|N> <tr>`  `_handle_post_processors` with integer limits
 -/
 open NunavutVerif NunavutVerif.LineBuffer NunavutVerif.Proto
 
@@ -23,54 +32,138 @@ def parsePPs (s : String) : Option (List PP) :=
 def parseChunks (s : String) : Option (List Str) :=
   if s = "!" then some [] else (splitOnChar s '|').mapM decodeStr
 
-def answer (line : String) : String :=
+def parseProc (t : String) : Option Proc :=
+  if t = "T" then some Proc.trim
+  else if t.startsWith "L" then (t.drop 1).toString.toInt?.map Proc.limit
+  else if t.startsWith "C" then (t.drop 1).toString.toNat?.map Proc.custom
+  else none
+
+def showOptStr : Option Str → String
+  | none => "N"
+  | some t => encodeStr t
+
+def showCItems (r : List CItem) : String :=
+  if r.isEmpty then "-" else
+  ",".intercalate (r.map fun i => match i with
+    | .trim => "T" | .limit n => s!"L{n}" | .prog k => s!"P{k}" | .mode m => s!"M{m}" | .other k => s!"O{k}")
+
+def parseCItem (t : String) : Option CItem :=
+  if t = "T" then some CItem.trim
+  else if t.startsWith "L" then (t.drop 1).toString.toInt?.map CItem.limit
+  else if t.startsWith "P" then (t.drop 1).toString.toNat?.map CItem.prog
+  else if t.startsWith "M" then (t.drop 1).toString.toNat?.map CItem.mode
+  else if t.startsWith "O" then (t.drop 1).toString.toNat?.map CItem.other
+  else none
+
+def parseRun (t : String) : Option CopyRun :=
+  match splitOnChar t ';' with
+  | [pps, start, dry, allow] =>
+    match parsePPs pps, start.toNat? with
+    | some pps, some st => some ⟨pps, pps.map fun _ => st, dry = "1", allow = "1"⟩
+    | _, _ => none
+  | _ => none
+
+def optInt (x : String) : Option (Option Int) := if x = "N" then some none else x.toInt?.map some
+def optNat (x : String) : Option (Option Nat) := if x = "N" then some none else x.toNat?.map some
+
+def answer2 (line : String) : Option String :=
   match line.splitOn " " with
-  | ["gen", pps, chunks] =>
-    match parsePPs pps, parseChunks chunks with
-    | some pps, some chunks => encodeStr (output pps (pps.map fun _ => 0) chunks)
-    | _, _ => "bad-op"
-  | ["old", pps, chunks] =>
-    match parsePPs pps, parseChunks chunks with
-    | some pps, some chunks =>
-      encodeStr (write (pipeLines pps (pps.map fun _ => 0) (genLinesBeforeFix chunks)))
-    | _, _ => "bad-op"
-  | ["files", pps, files] =>
-    -- files: `/`-separated chunk lists; answer: `/`-separated encoded file texts
-    match parsePPs pps, (splitOnChar files '/').mapM parseChunks with
-    | some pps, some fs => "/".intercalate ((genFiles pps (pps.map fun _ => 7) fs).map encodeStr)
-    | _, _ => "bad-op"
-  | ["assemble", given, lim, tr] =>
-    -- given: `N` (None) | `-` (empty list) | comma list of T / L<n> / O<k>; lim: `N` | <n>; tr: 0 | 1
-    let parseItem (t : String) : Option Item :=
-      if t = "T" then some Item.trim
-      else if t.startsWith "L" then (t.drop 1).toString.toNat?.map Item.limit
-      else if t.startsWith "O" then (t.drop 1).toString.toNat?.map Item.other
-      else none
-    let g : Option (Option (List Item)) :=
+  | ["flines", text] =>
+    (decodeStr text).map fun t =>
+      let ls := fileLines t
+      if ls.isEmpty then "!" else "|".intercalate (ls.map encodeStr)
+  | ["copyh", res, dst0, runs] =>
+    let d0 : Option (Option Str) := if dst0 = "N" then some none else (decodeStr dst0).map some
+    match decodeStr res, d0, (splitOnChar runs '/').mapM parseRun with
+    | some res, some d0, some runs =>
+      let r := copyHistory res d0 runs
+      some ("/".intercalate (r.1.map fun x => match x with | none => "E" | some d => showOptStr d) ++ "=" ++ showOptStr r.2)
+    | _, _, _ => none
+  | ["call", pr, st, content, term] =>
+    match parseProc pr, st.toNat?, decodeStr content, decodeStr term with
+    | some p, some s, some c, some t =>
+      match p.call s ⟨c, t⟩ with
+      | (none, s') => some s!"N {s'}"
+      | (some l, s') => some s!"{encodeStr l.content} {encodeStr l.term} {s'}"
+    | _, _, _, _ => none
+  | ["reset", pr, st] =>
+    match parseProc pr, st.toNat? with
+    | some p, some s => some (toString (p.reset s))
+    | _, _ => none
+  | ["pfiles", procs, start, files] =>
+    match (if procs = "-" then some [] else (splitOnChar procs ',').mapM parseProc), start.toNat?,
+          (splitOnChar files '/').mapM parseChunks with
+    | some ps, some st, some fs =>
+      some ("/".intercalate ((genFilesP ps (ps.map fun _ => st) fs).map fun r => encodeStr r.1 ++ ":" ++ (if r.2 then "1" else "0")))
+    | _, _, _ => none
+  | ["cliz", tr, mx, pr, mode, lim, ctr] =>
+    match optInt mx, optNat pr, mode.toNat?, optInt lim with
+    | some mx, some pr, some mode, some lim =>
+      let r := cliProcessorsZ ⟨tr = "1", mx, pr, mode⟩ lim (ctr = "1")
+      some (showCItems r ++ ";" ++ showCItems (lineProcs r))
+    | _, _, _, _ => none
+  | ["asmz", given, lim, tr] =>
+    let g : Option (Option (List CItem)) :=
       if given = "N" then some none
       else if given = "-" then some (some [])
-      else ((splitOnChar given ',').mapM parseItem).map some
-    let l : Option (Option Nat) := if lim = "N" then some none else lim.toNat?.map some
-    match g, l with
+      else ((splitOnChar given ',').mapM parseCItem).map some
+    match g, optInt lim with
     | some g, some l =>
-      match assemble g l (tr = "1") with
-      | none => "N"
-      | some [] => "-"
-      | some r => ",".intercalate (r.map fun i => match i with
+      some (match assembleZ g l (tr = "1") with | none => "N" | some r => showCItems r)
+    | _, _ => none
+  | _ => none
+
+def answer (line : String) : String :=
+  match answer2 line with
+  | some r => r
+  | none =>
+    match line.splitOn " " with
+    | ["gen", pps, chunks] =>
+      match parsePPs pps, parseChunks chunks with
+      | some pps, some chunks => encodeStr (output pps (pps.map fun _ => 0) chunks)
+      | _, _ => "bad-op"
+    | ["old", pps, chunks] =>
+      match parsePPs pps, parseChunks chunks with
+      | some pps, some chunks =>
+        encodeStr (write (pipeLines pps (pps.map fun _ => 0) (genLinesBeforeFix chunks)))
+      | _, _ => "bad-op"
+    | ["files", pps, files] =>
+      -- files: `/`-separated chunk lists; answer: `/`-separated encoded file texts
+      match parsePPs pps, (splitOnChar files '/').mapM parseChunks with
+      | some pps, some fs => "/".intercalate ((genFiles pps (pps.map fun _ => 7) fs).map encodeStr)
+      | _, _ => "bad-op"
+    | ["assemble", given, lim, tr] =>
+      -- given: `N` (None) | `-` (empty list) | comma list of T / L<n> / O<k>; lim: `N` | <n>; tr: 0 | 1
+      let parseItem (t : String) : Option Item :=
+        if t = "T" then some Item.trim
+        else if t.startsWith "L" then (t.drop 1).toString.toNat?.map Item.limit
+        else if t.startsWith "O" then (t.drop 1).toString.toNat?.map Item.other
+        else none
+      let g : Option (Option (List Item)) :=
+        if given = "N" then some none
+        else if given = "-" then some (some [])
+        else ((splitOnChar given ',').mapM parseItem).map some
+      let l : Option (Option Nat) := if lim = "N" then some none else lim.toNat?.map some
+      match g, l with
+      | some g, some l =>
+        match assemble g l (tr = "1") with
+        | none => "N"
+        | some [] => "-"
+        | some r => ",".intercalate (r.map fun i => match i with
+            | .trim => "T" | .limit n => s!"L{n}" | .other k => s!"O{k}")
+      | _, _ => "bad-op"
+    | ["cli", tr, mx, pr, lim, ctr] =>
+      -- tr/pr/ctr: 0|1; mx, lim: `N` | <n>  → the assembled list of a CLI run
+      let o (x : String) : Option (Option Nat) := if x = "N" then some none else x.toNat?.map some
+      match o mx, o lim with
+      | some mx, some lim =>
+        ",".intercalate ((cliProcessors (tr = "1") mx (pr = "1") lim (ctr = "1")).map fun i => match i with
           | .trim => "T" | .limit n => s!"L{n}" | .other k => s!"O{k}")
-    | _, _ => "bad-op"
-  | ["cli", tr, mx, pr, lim, ctr] =>
-    -- tr/pr/ctr: 0|1; mx, lim: `N` | <n>  → the assembled list of a CLI run
-    let o (x : String) : Option (Option Nat) := if x = "N" then some none else x.toNat?.map some
-    match o mx, o lim with
-    | some mx, some lim =>
-      ",".intercalate ((cliProcessors (tr = "1") mx (pr = "1") lim (ctr = "1")).map fun i => match i with
-        | .trim => "T" | .limit n => s!"L{n}" | .other k => s!"O{k}")
-    | _, _ => "bad-op"
-  | ["isws", n] =>
-    match n.toNat? with
-    | some k => if isWs (Char.ofNat k) then "1" else "0"
-    | none => "bad-op"
-  | _ => "bad-op"
+      | _, _ => "bad-op"
+    | ["isws", n] =>
+      match n.toNat? with
+      | some k => if isWs (Char.ofNat k) then "1" else "0"
+      | none => "bad-op"
+    | _ => "bad-op"
 
 def main : IO Unit := serve answer
